@@ -306,3 +306,13 @@ func (z ZSet) Sample(n int) []int64 {
 	}
 	return out
 }
+
+
+// Intersect is exact up to the modulus cap of residue().
+func (z ZSet) Intersect(o ZSet) ZSet {
+	var out ZSet
+	for _, c := range o.cells {
+		out = out.Union(z.clip(c.lo, c.hi).residue(c.m, c.r))
+	}
+	return out
+}
